@@ -474,10 +474,6 @@ def stepRoute {ι} (comps : List Bytes) (last : Bytes) (r : Route ι) : MatchRes
     else r.run (comps.dropLast ++ [last.take verbIdx]) (last.drop (verbIdx + 1))
   else r.run comps []
 
-inductive Step (ι : Type) where
-  | continue
-  | stop (r : RouteResult ι)
-
 def iterate {ι} (comps : List Bytes) (last : Bytes) : List (Route ι) → RouteResult ι
   | [] => .error .notFound
   | r :: rs =>
